@@ -24,6 +24,12 @@ def crossedSum {M : Type} (mc : Machine M) : Nat → M → Nat
   | 0, _ => 0
   | j + 1, m => mc.crossed m + crossedSum mc j (mc.step m)
 
+/-- `acc + crossedSum mc j m`, tail-recursive (what the native driver runs; equality:
+`crossedSumTR_eq` in Lemmas/Driving.lean) -/
+def crossedSumTR {M : Type} (mc : Machine M) : Nat → M → Nat → Nat
+  | 0, _, acc => acc
+  | j + 1, m, acc => crossedSumTR mc j (mc.step m) (acc + mc.crossed m)
+
 /-- Iterate `step` until `K` frame boundaries have passed (`none`: not within `fuel` steps). -/
 def runToFrame {M : Type} (mc : Machine M) : Nat → Nat → M → Option M
   | _, 0, m => some m
